@@ -49,3 +49,38 @@ Theorem C06_errors : forall i k, gc i = GcErr k ->
   (k = 1 /\ g_ro i = true) \/ (g_ro i = false /\ g_shallow i = false /\ (k = 2 \/ k = 3)).
 Proof. exact gc_errors. Qed.
 Print Assumptions C06_errors.
+
+(* --- the container kind of `used` (gc takes Iterable[HashInfo]) ---
+   An Ok result depends on the MEMBERS of `used` alone: not on the order, not on duplicates
+   (list / tuple / set / frozenset / one-shot iterator all denote the same members). *)
+Theorem C06_used_set : forall i u2 n1 s1 n2 s2,
+  (forall x, In x (g_used i) <-> In x u2) ->
+  gc i = GcOk n1 s1 -> gc (with_used i u2) = GcOk n2 s2 -> n1 = n2 /\ s1 = s2.
+Proof. exact gc_used_set. Qed.
+Print Assumptions C06_used_set.
+
+(* gc succeeds exactly when the store is writable and no used directory object of the store's
+   algorithm fails to load in expanding mode - again a statement about members only *)
+Theorem C06_ok_iff : forall i,
+  (exists n s', gc i = GcOk n s') <-> (g_ro i = false /\ ~ LoadFails i).
+Proof. exact gc_ok_iff. Qed.
+Print Assumptions C06_ok_iff.
+
+Theorem C06_ok_used_set : forall i u2,
+  (forall x, In x (g_used i) <-> In x u2) ->
+  (exists n s', gc i = GcOk n s') <-> (exists n s', gc (with_used i u2) = GcOk n s').
+Proof. exact gc_ok_used_set. Qed.
+Print Assumptions C06_ok_used_set.
+
+(* --- the size of the store ---
+   All statements above are unbounded in the length of g_store.  Moreover the decision on an
+   object never depends on the rest of the store: gc over s1 ++ s2 is gc over s1 and gc over s2
+   put together, so there is no size threshold in the model (the harness runs stores beyond the
+   listing page size of the real file system because an implementation could have one). *)
+Theorem C06_store_app : forall i s1 s2 n s',
+  g_store i = s1 ++ s2 -> gc i = GcOk n s' ->
+  exists n1 k1 n2 k2,
+    gc (with_store i s1) = GcOk n1 k1 /\ gc (with_store i s2) = GcOk n2 k2 /\
+    n = n1 + n2 /\ s' = k1 ++ k2.
+Proof. exact gc_store_app. Qed.
+Print Assumptions C06_store_app.
